@@ -28,6 +28,7 @@ def step (line : String) : String :=
     else if op == "p.lines" then runIcal args
     else if op.startsWith "y." then runRrule op args
     else if op == "r.fill" then runRrFill args
+    else if op == "r.strm" then runRrStrm args
     else "bad-op"
 
 partial def loop (h : IO.FS.Stream) (out : IO.FS.Stream) : IO Unit := do
